@@ -1,22 +1,51 @@
-// C15 correspondence harness for the ring / field / rational / polynomial interfaces: every three-address operation is called
-// with the destination being the same object as one or several of its inputs and compared with the call on distinct objects
+// C15 correspondence harness for the ring / field / rational / polynomial interfaces and RecInt: every three-address operation is
+// called with the destination being the same object as one or several of its inputs and compared with the call on distinct objects
 // holding the same values.
 //
-//   h_alias <tier> <seed> [kind]
+//   h_alias <tier> <seed> [kind|-] [replay]
 // output:  al <kind> <op> <pattern> <case> = <digest expected> <digest got>      (equal digests = alias independent)
 //          on a mismatch the readable values are printed as:  # <same key> expected=<…> got=<…>
-// pattern: letters of the parameters that are ONE object, e.g. "ra" (r≡a), "rb", "rc", "ab" (a≡b, r distinct), "rab", "rabc"
-#include "domains.h"
+// <op>     = <function name>:<shape>, one letter per parameter: r destination (non-const reference of the element type), a input of
+//            the element type, o other output, s other input (scalar, degree, exponent) -- the key of the generated table
+//            (translate/aliasfp.py; there a trailing #n distinguishes instantiations that differ only in a scalar type)
+// pattern  = the parameters that are ONE object: destinations r s t …, inputs a b c … in parameter order, e.g. "ra" (r≡a), "rab",
+//            "sb" (second destination ≡ second input), "ab" (two inputs, destination distinct)
+// With `replay` the keys to run are read from stdin (`al kind op pattern case`); everything else is computed but not printed.
+// -DALIAS_PART=n compiles only the n-th group of kinds (the template zoo is split to build in parallel).
+#include "alias_kinds.h"
 #include "proto.h"
-#include <givaro/givpoly1.h>
-#include <givaro/zring.h>
-#include <givaro/gf2.h>
+#include <cstring>
+#include <set>
 
 using namespace Givaro;
+namespace AK = Givaro::alias_kinds;
+
+#ifdef ALIAS_PART
+#define PART(n) (ALIAS_PART == (n))
+#else
+#define PART(n) 1
+#endif
+
+static std::set<std::string> g_replay;
+static bool g_replay_on = false;
+static std::string g_only;
 
 static void emit(const std::string& kind, const char* op, const char* pat, int cs, const std::string& exp, const std::string& got) {
+    if (g_replay_on) {
+        char key[512]; snprintf(key, sizeof key, "al %s %s %s %d", kind.c_str(), op, pat, cs);
+        if (!g_replay.count(key)) return;
+    }
     printf("al %s %s %s %d = %llx %llx\n", kind.c_str(), op, pat, cs, (unsigned long long)dz::fnv(exp), (unsigned long long)dz::fnv(got));
     if (exp != got) printf("# al %s %s %s %d expected=%s got=%s\n", kind.c_str(), op, pat, cs, exp.c_str(), got.c_str());
+}
+static bool want(const char* kind) {
+    if (!g_only.empty() && g_only != "-" && g_only != kind) return false;
+    if (g_replay_on) {
+        const std::string pre = std::string("al ") + kind + " ";
+        for (auto& k : g_replay) if (k.compare(0, pre.size(), pre) == 0) return true;
+        return false;
+    }
+    return true;
 }
 
 template <class D, class E>
@@ -34,56 +63,74 @@ static void alias_ring(const std::string& kind, const D& F, const std::vector<In
         std::string e;
 #define BIN(OP)                                                                                                        \
         F.OP(R, A, B); e = show(F, R);                                                                                  \
-        F.assign(X, A); F.OP(X, X, B); emit(kind, #OP, "ra", cs, e, show(F, X));                                        \
-        F.assign(X, B); F.OP(X, A, X); emit(kind, #OP, "rb", cs, e, show(F, X));                                        \
+        F.assign(X, A); F.OP(X, X, B); emit(kind, #OP ":raa", "ra", cs, e, show(F, X));                                 \
+        F.assign(X, B); F.OP(X, A, X); emit(kind, #OP ":raa", "rb", cs, e, show(F, X));                                 \
         F.OP(R, A, A); e = show(F, R);                                                                                  \
-        F.assign(X, A); F.OP(Y, X, X); emit(kind, #OP, "ab", cs, e, show(F, Y));                                        \
-        F.assign(X, A); F.OP(X, X, X); emit(kind, #OP, "rab", cs, e, show(F, X));
+        F.assign(X, A); F.OP(Y, X, X); emit(kind, #OP ":raa", "ab", cs, e, show(F, Y));                                 \
+        F.assign(X, A); F.OP(X, X, X); emit(kind, #OP ":raa", "rab", cs, e, show(F, X));
         BIN(add) BIN(sub) BIN(mul)
-        if (!F.isZero(B) && !F.isZero(A)) { BIN(div) }
+        if (!F.isZero(B) && !F.isZero(A)) try { BIN(div) } catch (const GivMathError&) {}
 #define TER(OP)                                                                                                        \
         F.OP(R, A, B, C); e = show(F, R);                                                                               \
-        F.assign(X, A); F.OP(X, X, B, C); emit(kind, #OP, "ra", cs, e, show(F, X));                                     \
-        F.assign(X, B); F.OP(X, A, X, C); emit(kind, #OP, "rb", cs, e, show(F, X));                                     \
-        F.assign(X, C); F.OP(X, A, B, X); emit(kind, #OP, "rc", cs, e, show(F, X));                                     \
+        F.assign(X, A); F.OP(X, X, B, C); emit(kind, #OP ":raaa", "ra", cs, e, show(F, X));                             \
+        F.assign(X, B); F.OP(X, A, X, C); emit(kind, #OP ":raaa", "rb", cs, e, show(F, X));                             \
+        F.assign(X, C); F.OP(X, A, B, X); emit(kind, #OP ":raaa", "rc", cs, e, show(F, X));                             \
         F.OP(R, A, A, C); e = show(F, R);                                                                               \
-        F.assign(X, A); F.OP(X, X, X, C); emit(kind, #OP, "rab", cs, e, show(F, X));                                    \
+        F.assign(X, A); F.OP(X, X, X, C); emit(kind, #OP ":raaa", "rab", cs, e, show(F, X));                            \
+        F.assign(X, A); F.OP(Y, X, X, C); emit(kind, #OP ":raaa", "ab", cs, e, show(F, Y));                             \
         F.OP(R, A, B, A); e = show(F, R);                                                                               \
-        F.assign(X, A); F.OP(X, X, B, X); emit(kind, #OP, "rac", cs, e, show(F, X));                                    \
+        F.assign(X, A); F.OP(X, X, B, X); emit(kind, #OP ":raaa", "rac", cs, e, show(F, X));                            \
+        F.assign(X, A); F.OP(Y, X, B, X); emit(kind, #OP ":raaa", "ac", cs, e, show(F, Y));                             \
         F.OP(R, A, A, A); e = show(F, R);                                                                               \
-        F.assign(X, A); F.OP(X, X, X, X); emit(kind, #OP, "rabc", cs, e, show(F, X));                                   \
+        F.assign(X, A); F.OP(X, X, X, X); emit(kind, #OP ":raaa", "rabc", cs, e, show(F, X));                           \
+        F.assign(X, A); F.OP(Y, X, X, X); emit(kind, #OP ":raaa", "abc", cs, e, show(F, Y));                            \
         F.OP(R, A, B, B); e = show(F, R);                                                                               \
-        F.assign(X, B); F.OP(X, A, X, X); emit(kind, #OP, "rbc", cs, e, show(F, X));
+        F.assign(X, B); F.OP(X, A, X, X); emit(kind, #OP ":raaa", "rbc", cs, e, show(F, X));                            \
+        F.assign(X, B); F.OP(Y, A, X, X); emit(kind, #OP ":raaa", "bc", cs, e, show(F, Y));                             \
+        F.OP(R, A, A, B); e = show(F, R);                                                                               \
+        F.assign(X, A); F.assign(Y, B); F.OP(Y, X, X, Y); emit(kind, #OP ":raaa", "rc_ab", cs, e, show(F, Y));          \
+        F.OP(R, A, B, A); e = show(F, R);                                                                               \
+        F.assign(X, A); F.assign(Y, B); F.OP(Y, X, Y, X); emit(kind, #OP ":raaa", "rb_ac", cs, e, show(F, Y));          \
+        F.OP(R, A, B, B); e = show(F, R);                                                                               \
+        F.assign(X, A); F.assign(Y, B); F.OP(X, X, Y, Y); emit(kind, #OP ":raaa", "ra_bc", cs, e, show(F, X));
         TER(axpy) TER(axmy) TER(maxpy)
         F.neg(R, A); e = show(F, R);
-        F.assign(X, A); F.neg(X, X); emit(kind, "neg", "ra", cs, e, show(F, X));
+        F.assign(X, A); F.neg(X, X); emit(kind, "neg:ra", "ra", cs, e, show(F, X));
+        F.assign(R, A); e = show(F, R);
+        F.assign(X, A); F.assign(X, X); emit(kind, "assign:ra", "ra", cs, e, show(F, X));
         if (!F.isZero(A)) try {
             F.inv(R, A); e = show(F, R);
-            F.assign(X, A); F.inv(X, X); emit(kind, "inv", "ra", cs, e, show(F, X));
+            F.assign(X, A); F.inv(X, X); emit(kind, "inv:ra", "ra", cs, e, show(F, X));
         } catch (const GivMathError&) {}      // not a unit (ZRing)
         // in-place forms with the operand being the destination itself: x op= x
 #define INPL(OP, REF)                                                                                                  \
         F.REF(R, A, A); e = show(F, R);                                                                                 \
-        F.assign(X, A); F.OP(X, X); emit(kind, #OP, "rr", cs, e, show(F, X));
+        F.assign(X, A); F.OP(X, X); emit(kind, #OP ":ra", "ra", cs, e, show(F, X));
         INPL(addin, add) INPL(subin, sub) INPL(mulin, mul)
-        if (!F.isZero(A)) { INPL(divin, div) }
-        F.axpy(R, A, A, A); e = show(F, R);
-        F.assign(X, A); F.axpyin(X, X, X); emit(kind, "axpyin", "rab", cs, e, show(F, X));
-        F.maxpy(R, A, A, A); e = show(F, R);
-        F.assign(X, A); F.maxpyin(X, X, X); emit(kind, "maxpyin", "rab", cs, e, show(F, X));
-        F.axmy(R, A, A, A); e = show(F, R);
-        F.assign(X, A); F.axmyin(X, X, X); emit(kind, "axmyin", "rab", cs, e, show(F, X));
-        // r op= a*b with r being a only / b only:  OPin(r, r, b) = OP(., r, b, r),  OPin(r, a, r) = OP(., a, r, r)
+        if (!F.isZero(A)) try { INPL(divin, div) } catch (const GivMathError&) {}
+        // r op= a*b:  OPin(r, a, b) = OP(., a, b, r)
 #define TERIN(OPIN, OP)                                                                                                \
         F.OP(R, A, B, A); e = show(F, R);                                                                               \
-        F.assign(X, A); F.OPIN(X, X, B); emit(kind, #OPIN, "ra", cs, e, show(F, X));                                    \
+        F.assign(X, A); F.OPIN(X, X, B); emit(kind, #OPIN ":raa", "ra", cs, e, show(F, X));                             \
         F.OP(R, A, B, B); e = show(F, R);                                                                               \
-        F.assign(X, B); F.OPIN(X, A, X); emit(kind, #OPIN, "rb", cs, e, show(F, X));
+        F.assign(X, B); F.OPIN(X, A, X); emit(kind, #OPIN ":raa", "rb", cs, e, show(F, X));                             \
+        F.OP(R, A, A, A); e = show(F, R);                                                                               \
+        F.assign(X, A); F.OPIN(X, X, X); emit(kind, #OPIN ":raa", "rab", cs, e, show(F, X));                            \
+        F.OP(R, A, A, B); e = show(F, R);                                                                               \
+        F.assign(X, A); F.assign(Y, B); F.OPIN(Y, X, X); emit(kind, #OPIN ":raa", "ab", cs, e, show(F, Y));
         TERIN(axpyin, axpy) TERIN(maxpyin, maxpy) TERIN(axmyin, axmy)
     }
 }
 
 // ---- polynomial interface ----------------------------------------------------------------------------------------------------
+#define PBIN(OP)                                                                                                       \
+        P.OP(R, A, B); e = show(P, R);                                                                                  \
+        P.assign(X, A); P.OP(X, X, B); emit(kind, #OP ":raa", "ra", cs, e, show(P, X));                                 \
+        P.assign(X, B); P.OP(X, A, X); emit(kind, #OP ":raa", "rb", cs, e, show(P, X));                                 \
+        P.OP(R, A, A); e = show(P, R);                                                                                  \
+        P.assign(X, A); P.OP(X, X, X); emit(kind, #OP ":raa", "rab", cs, e, show(P, X));                                \
+        P.assign(X, A); P.OP(Y, X, X); emit(kind, #OP ":raa", "ab", cs, e, show(P, Y));
+
 template <class PD>
 static void alias_poly(const std::string& kind, const PD& P, vp::Rng& rng, int ncases) {
     typedef typename PD::Element Pol;
@@ -98,34 +145,36 @@ static void alias_poly(const std::string& kind, const PD& P, vp::Rng& rng, int n
         for (int i = 0; i <= dC; ++i) { F.init(c, Integer(uint64_t(rng.below(97)))); C[size_t(i)] = c; }
         F.init(c, Integer(1)); A[size_t(dA)] = c; B[size_t(dB)] = c; C[size_t(dC)] = c;     // monic: degrees as drawn, non-zero
         std::string e;
-#define PBIN(OP)                                                                                                       \
-        P.OP(R, A, B); e = show(P, R);                                                                                  \
-        P.assign(X, A); P.OP(X, X, B); emit(kind, #OP, "ra", cs, e, show(P, X));                                        \
-        P.assign(X, B); P.OP(X, A, X); emit(kind, #OP, "rb", cs, e, show(P, X));                                        \
-        P.OP(R, A, A); e = show(P, R);                                                                                  \
-        P.assign(X, A); P.OP(X, X, X); emit(kind, #OP, "rab", cs, e, show(P, X));
         PBIN(add) PBIN(sub) PBIN(mul) PBIN(div) PBIN(mod) PBIN(gcd)
-        // divmod(Q, R, A, B)
+        // the same with the operands exchanged (destination = the operand of smaller degree / of larger degree)
+        { Pol A2, B2; P.assign(A2, B); P.assign(B2, A); std::swap(A, A2); std::swap(B, B2); const int cs0 = cs; cs += 100000;
+          PBIN(gcd) PBIN(sub) PBIN(div) PBIN(mod)
+          cs = cs0; std::swap(A, A2); std::swap(B, B2); }
+        // divmod(Q, R, A, B): destinations r = Q, s = R
         P.divmod(Q, R, A, B); e = show(P, Q) + " ; " + show(P, R);
-        P.assign(X, A); P.divmod(X, Y, X, B); emit(kind, "divmod", "qa", cs, e, show(P, X) + " ; " + show(P, Y));
-        P.assign(Y, B); P.divmod(X, Y, A, Y); emit(kind, "divmod", "rb", cs, e, show(P, X) + " ; " + show(P, Y));
-        P.assign(X, B); P.divmod(X, Y, A, X); emit(kind, "divmod", "qb", cs, e, show(P, X) + " ; " + show(P, Y));
-        P.assign(Y, A); P.divmod(X, Y, Y, B); emit(kind, "divmod", "ra", cs, e, show(P, X) + " ; " + show(P, Y));
+        P.assign(X, A); P.divmod(X, Y, X, B); emit(kind, "divmod:rraa", "ra", cs, e, show(P, X) + " ; " + show(P, Y));
+        P.assign(Y, B); P.divmod(X, Y, A, Y); emit(kind, "divmod:rraa", "sb", cs, e, show(P, X) + " ; " + show(P, Y));
+        P.assign(X, B); P.divmod(X, Y, A, X); emit(kind, "divmod:rraa", "rb", cs, e, show(P, X) + " ; " + show(P, Y));
+        P.assign(Y, A); P.divmod(X, Y, Y, B); emit(kind, "divmod:rraa", "sa", cs, e, show(P, X) + " ; " + show(P, Y));
+        P.assign(X, A); P.assign(Y, B); P.divmod(X, Y, X, Y); emit(kind, "divmod:rraa", "ra_sb", cs, e, show(P, X) + " ; " + show(P, Y));
+        P.assign(X, B); P.assign(Y, A); P.divmod(X, Y, Y, X); emit(kind, "divmod:rraa", "rb_sa", cs, e, show(P, X) + " ; " + show(P, Y));
         // axpy(R, A, X, Y) = A*X + Y   and relatives
 #define PTER(OP)                                                                                                       \
         P.OP(R, A, B, C); e = show(P, R);                                                                               \
-        P.assign(X, A); P.OP(X, X, B, C); emit(kind, #OP, "ra", cs, e, show(P, X));                                     \
-        P.assign(X, B); P.OP(X, A, X, C); emit(kind, #OP, "rb", cs, e, show(P, X));                                     \
-        P.assign(X, C); P.OP(X, A, B, X); emit(kind, #OP, "rc", cs, e, show(P, X));
+        P.assign(X, A); P.OP(X, X, B, C); emit(kind, #OP ":raaa", "ra", cs, e, show(P, X));                             \
+        P.assign(X, B); P.OP(X, A, X, C); emit(kind, #OP ":raaa", "rb", cs, e, show(P, X));                             \
+        P.assign(X, C); P.OP(X, A, B, X); emit(kind, #OP ":raaa", "rc", cs, e, show(P, X));
         PTER(axpy) PTER(axmy) PTER(maxpy)
         P.neg(R, A); e = show(P, R);
-        P.assign(X, A); P.neg(X, X); emit(kind, "neg", "ra", cs, e, show(P, X));
+        P.assign(X, A); P.neg(X, X); emit(kind, "neg:ra", "ra", cs, e, show(P, X));
+        P.assign(R, A); e = show(P, R);
+        P.assign(X, A); P.assign(X, X); emit(kind, "assign:ra", "ra", cs, e, show(P, X));
         P.sqr(R, A); e = show(P, R);
-        P.assign(X, A); P.sqr(X, X); emit(kind, "sqr", "ra", cs, e, show(P, X));
+        P.assign(X, A); P.sqr(X, X); emit(kind, "sqr:ra", "ra", cs, e, show(P, X));
         // in-place forms with themselves
-        P.add(R, A, A); e = show(P, R); P.assign(X, A); P.addin(X, X); emit(kind, "addin", "rr", cs, e, show(P, X));
-        P.sub(R, A, A); e = show(P, R); P.assign(X, A); P.subin(X, X); emit(kind, "subin", "rr", cs, e, show(P, X));
-        P.mul(R, A, A); e = show(P, R); P.assign(X, A); P.mulin(X, X); emit(kind, "mulin", "rr", cs, e, show(P, X));
+        P.add(R, A, A); e = show(P, R); P.assign(X, A); P.addin(X, X); emit(kind, "addin:ra", "ra", cs, e, show(P, X));
+        P.sub(R, A, A); e = show(P, R); P.assign(X, A); P.subin(X, X); emit(kind, "subin:ra", "ra", cs, e, show(P, X));
+        P.mul(R, A, A); e = show(P, R); P.assign(X, A); P.mulin(X, X); emit(kind, "mulin:ra", "ra", cs, e, show(P, X));
     }
 }
 
@@ -153,111 +202,134 @@ static void alias_poly2(const std::string& kind, const PD& P, vp::Rng& rng, int 
         // long products
         PBIN(mul) PBIN(stdmul) PBIN(karamul)
         P.sqr(R, A); e = show(P, R);
-        P.assign(X, A); P.sqr(X, X); emit(kind, "sqr", "ra", cs, e, show(P, X));
+        P.assign(X, A); P.sqr(X, X); emit(kind, "sqr:ra", "ra", cs, e, show(P, X));
         if (!big) {
             PBIN(lcm)
             // truncated product
             const Degree lo(1), hi(3);
             P.mul(R, A, B, lo, hi); e = show(P, R);
-            P.assign(X, A); P.mul(X, X, B, lo, hi); emit(kind, "multrunc", "ra", cs, e, show(P, X));
-            P.assign(X, B); P.mul(X, A, X, lo, hi); emit(kind, "multrunc", "rb", cs, e, show(P, X));
+            P.assign(X, A); P.mul(X, X, B, lo, hi); emit(kind, "mul:raass", "ra", cs, e, show(P, X));
+            P.assign(X, B); P.mul(X, A, X, lo, hi); emit(kind, "mul:raass", "rb", cs, e, show(P, X));
+            P.mul(R, A, A, lo, hi); e = show(P, R);
+            P.assign(X, A); P.mul(X, X, X, lo, hi); emit(kind, "mul:raass", "rab", cs, e, show(P, X));
+            P.assign(X, A); P.mul(Y, X, X, lo, hi); emit(kind, "mul:raass", "ab", cs, e, show(P, Y));
         }
-        // scalar forms
+        // scalar / polynomial mixed forms with the destination being the polynomial operand
 #define PSC(NAME, CALLR, CALLX)                                                                                        \
         CALLR; e = show(P, R); P.assign(X, A); CALLX; emit(kind, NAME, "ra", cs, e, show(P, X));
-        PSC("mul_s", P.mul(R, A, u), P.mul(X, X, u))
-        PSC("s_mul", P.mul(R, u, A), P.mul(X, u, X))
-        PSC("div_s", P.div(R, A, u), P.div(X, X, u))
-        PSC("add_s", P.add(R, A, u), P.add(X, X, u))
-        PSC("s_add", P.add(R, u, A), P.add(X, u, X))
-        PSC("sub_s", P.sub(R, A, u), P.sub(X, X, u))
-        PSC("s_sub", P.sub(R, u, A), P.sub(X, u, X))
+        PSC("mul:ras", P.mul(R, A, u), P.mul(X, X, u))
+        PSC("mul:rsa", P.mul(R, u, A), P.mul(X, u, X))
+        PSC("div:ras", P.div(R, A, u), P.div(X, X, u))
+        PSC("add:ras", P.add(R, A, u), P.add(X, X, u))
+        PSC("add:rsa", P.add(R, u, A), P.add(X, u, X))
+        PSC("sub:ras", P.sub(R, A, u), P.sub(X, X, u))
+        PSC("sub:rsa", P.sub(R, u, A), P.sub(X, u, X))
 #define PSTER(OP, NAME)                                                                                                \
         P.OP(R, u, A, B); e = show(P, R);                                                                               \
-        P.assign(X, A); P.OP(X, u, X, B); emit(kind, NAME, "rb", cs, e, show(P, X));                                    \
-        P.assign(X, B); P.OP(X, u, A, X); emit(kind, NAME, "rc", cs, e, show(P, X));                                    \
+        P.assign(X, A); P.OP(X, u, X, B); emit(kind, NAME, "ra", cs, e, show(P, X));                                    \
+        P.assign(X, B); P.OP(X, u, A, X); emit(kind, NAME, "rb", cs, e, show(P, X));                                    \
         P.OP(R, u, B, A); e = show(P, R);                                                                               \
-        P.assign(X, B); P.OP(X, u, X, A); emit(kind, NAME, "rb'", cs, e, show(P, X));                                   \
-        P.assign(X, A); P.OP(X, u, B, X); emit(kind, NAME, "rc'", cs, e, show(P, X));                                   \
+        P.assign(X, B); P.OP(X, u, X, A); emit(kind, NAME, "ra", cs + 100000, e, show(P, X));                           \
+        P.assign(X, A); P.OP(X, u, B, X); emit(kind, NAME, "rb", cs + 100000, e, show(P, X));                           \
         P.OP(R, u, A, A); e = show(P, R);                                                                               \
-        P.assign(X, A); P.OP(X, u, X, X); emit(kind, NAME, "rbc", cs, e, show(P, X));
-        PSTER(axpy, "axpy_s") PSTER(axmy, "axmy_s")
+        P.assign(X, A); P.OP(X, u, X, X); emit(kind, NAME, "rab", cs, e, show(P, X));                                   \
+        P.assign(X, A); P.OP(Y, u, X, X); emit(kind, NAME, "ab", cs, e, show(P, Y));
+        PSTER(axpy, "axpy:rsaa") PSTER(axmy, "axmy:rsaa")
 #ifdef ALIAS_MAXPY_S   // Poly1Dom::maxpy(Rep&, const Type_t&, const Rep&, const Rep&) does not instantiate (it calls Rep::copy): not an aliasing matter
-        PSTER(maxpy, "maxpy_s")
+        PSTER(maxpy, "maxpy:rsaa")
 #endif
         // three polynomial operands: remaining patterns
 #define PTER2(OP)                                                                                                      \
         P.OP(R, A, A, C); e = show(P, R);                                                                               \
-        P.assign(X, A); P.OP(X, X, X, C); emit(kind, #OP, "rab", cs, e, show(P, X));                                    \
+        P.assign(X, A); P.OP(X, X, X, C); emit(kind, #OP ":raaa", "rab", cs, e, show(P, X));                            \
+        P.assign(X, A); P.OP(Y, X, X, C); emit(kind, #OP ":raaa", "ab", cs, e, show(P, Y));                             \
         P.OP(R, A, B, A); e = show(P, R);                                                                               \
-        P.assign(X, A); P.OP(X, X, B, X); emit(kind, #OP, "rac", cs, e, show(P, X));                                    \
+        P.assign(X, A); P.OP(X, X, B, X); emit(kind, #OP ":raaa", "rac", cs, e, show(P, X));                            \
+        P.assign(X, A); P.OP(Y, X, B, X); emit(kind, #OP ":raaa", "ac", cs, e, show(P, Y));                             \
+        P.OP(R, A, B, B); e = show(P, R);                                                                               \
+        P.assign(X, B); P.OP(X, A, X, X); emit(kind, #OP ":raaa", "rbc", cs, e, show(P, X));                            \
+        P.assign(X, B); P.OP(Y, A, X, X); emit(kind, #OP ":raaa", "bc", cs, e, show(P, Y));                             \
         P.OP(R, A, A, A); e = show(P, R);                                                                               \
-        P.assign(X, A); P.OP(X, X, X, X); emit(kind, #OP, "rabc", cs, e, show(P, X));
+        P.assign(X, A); P.OP(X, X, X, X); emit(kind, #OP ":raaa", "rabc", cs, e, show(P, X));                           \
+        P.assign(X, A); P.OP(Y, X, X, X); emit(kind, #OP ":raaa", "abc", cs, e, show(P, Y));                            \
+        P.OP(R, A, A, B); e = show(P, R);                                                                               \
+        P.assign(X, A); P.assign(Y, B); P.OP(Y, X, X, Y); emit(kind, #OP ":raaa", "rc_ab", cs, e, show(P, Y));          \
+        P.OP(R, A, B, A); e = show(P, R);                                                                               \
+        P.assign(X, A); P.assign(Y, B); P.OP(Y, X, Y, X); emit(kind, #OP ":raaa", "rb_ac", cs, e, show(P, Y));          \
+        P.OP(R, A, B, B); e = show(P, R);                                                                               \
+        P.assign(X, A); P.assign(Y, B); P.OP(X, X, Y, Y); emit(kind, #OP ":raaa", "ra_bc", cs, e, show(P, X));
         PTER2(axpy) PTER2(axmy) PTER2(maxpy)
 #define PTERIN(OPIN, OP)                                                                                               \
         P.OP(R, A, B, A); e = show(P, R);                                                                               \
-        P.assign(X, A); P.OPIN(X, X, B); emit(kind, #OPIN, "ra", cs, e, show(P, X));                                    \
+        P.assign(X, A); P.OPIN(X, X, B); emit(kind, #OPIN ":raa", "ra", cs, e, show(P, X));                             \
         P.OP(R, A, B, B); e = show(P, R);                                                                               \
-        P.assign(X, B); P.OPIN(X, A, X); emit(kind, #OPIN, "rb", cs, e, show(P, X));                                    \
+        P.assign(X, B); P.OPIN(X, A, X); emit(kind, #OPIN ":raa", "rb", cs, e, show(P, X));                             \
         P.OP(R, A, A, A); e = show(P, R);                                                                               \
-        P.assign(X, A); P.OPIN(X, X, X); emit(kind, #OPIN, "rab", cs, e, show(P, X));
+        P.assign(X, A); P.OPIN(X, X, X); emit(kind, #OPIN ":raa", "rab", cs, e, show(P, X));                            \
+        P.OP(R, A, A, B); e = show(P, R);                                                                               \
+        P.assign(X, A); P.assign(Y, B); P.OPIN(Y, X, X); emit(kind, #OPIN ":raa", "ab", cs, e, show(P, Y));
         PTERIN(axpyin, axpy) PTERIN(maxpyin, maxpy) PTERIN(axmyin, axmy)
+        // r <- u*x - r, r <- r - u*x with r being x
+        P.axmy(R, u, A, A); e = show(P, R); P.assign(X, A); P.axmyin(X, u, X); emit(kind, "axmyin:rsa", "ra", cs, e, show(P, X));
+        { Pol T1, T2; P.mul(T1, A, u); P.sub(R, A, T1); e = show(P, R); P.assign(X, A); P.maxpyin(X, u, X); emit(kind, "maxpyin:rsa", "ra", cs, e, show(P, X)); }
         // in-place division forms with themselves
-        P.div(R, A, A); e = show(P, R); P.assign(X, A); P.divin(X, X); emit(kind, "divin", "rr", cs, e, show(P, X));
-        P.mod(R, A, A); e = show(P, R); P.assign(X, A); P.modin(X, X); emit(kind, "modin", "rr", cs, e, show(P, X));
-        // divmodin(Q, R, B): R = B Q + newR
+        P.div(R, A, A); e = show(P, R); P.assign(X, A); P.divin(X, X); emit(kind, "divin:ra", "ra", cs, e, show(P, X));
+        P.mod(R, A, A); e = show(P, R); P.assign(X, A); P.modin(X, X); emit(kind, "modin:ra", "ra", cs, e, show(P, X));
+        // divmodin(Q, R, B): R = B Q + newR   (destinations r = Q, s = R; input a = B)
         P.assign(Y, A); P.divmodin(Q, Y, B); e = show(P, Q) + " ; " + show(P, Y);
-        P.assign(Y, A); P.assign(X, B); P.divmodin(X, Y, X); emit(kind, "divmodin", "qb", cs, e, show(P, X) + " ; " + show(P, Y));
+        P.assign(Y, A); P.assign(X, B); P.divmodin(X, Y, X); emit(kind, "divmodin:rra", "ra", cs, e, show(P, X) + " ; " + show(P, Y));
+        P.assign(Y, A); P.divmodin(Q, Y, A); e = show(P, Q) + " ; " + show(P, Y);
+        P.assign(Y, A); P.divmodin(X, Y, Y); emit(kind, "divmodin:rra", "sa", cs, e, show(P, X) + " ; " + show(P, Y));
         // derivative, reverse
-        P.diff(R, A); e = show(P, R); P.assign(X, A); P.diff(X, X); emit(kind, "diff", "ra", cs, e, show(P, X));
-        P.reverse(R, A); e = show(P, R); P.assign(X, A); P.reverse(X, X); emit(kind, "reverse", "ra", cs, e, show(P, X));
+        P.diff(R, A); e = show(P, R); P.assign(X, A); P.diff(X, X); emit(kind, "diff:ra", "ra", cs, e, show(P, X));
+        P.reverse(R, A); e = show(P, R); P.assign(X, A); P.reverse(X, X); emit(kind, "reverse:ra", "ra", cs, e, show(P, X));
         if (big) continue;
-        // pseudo-division
+        // pseudo-division pdivmod(Q, R, m, A, B): destinations r = Q, s = R
         P.pdivmod(Q, R, m, A, B); e = show(P, Q) + " ; " + show(P, R) + " ; " + show(F, m);
-        P.assign(X, A); P.pdivmod(X, Y, m2, X, B); emit(kind, "pdivmod", "qa", cs, e, show(P, X) + " ; " + show(P, Y) + " ; " + show(F, m2));
-        P.assign(X, B); P.pdivmod(X, Y, m2, A, X); emit(kind, "pdivmod", "qb", cs, e, show(P, X) + " ; " + show(P, Y) + " ; " + show(F, m2));
-        P.assign(Y, A); P.pdivmod(X, Y, m2, Y, B); emit(kind, "pdivmod", "ra", cs, e, show(P, X) + " ; " + show(P, Y) + " ; " + show(F, m2));
-        P.assign(Y, B); P.pdivmod(X, Y, m2, A, Y); emit(kind, "pdivmod", "rb", cs, e, show(P, X) + " ; " + show(P, Y) + " ; " + show(F, m2));
+        P.assign(X, A); P.pdivmod(X, Y, m2, X, B); emit(kind, "pdivmod:rroaa", "ra", cs, e, show(P, X) + " ; " + show(P, Y) + " ; " + show(F, m2));
+        P.assign(X, B); P.pdivmod(X, Y, m2, A, X); emit(kind, "pdivmod:rroaa", "rb", cs, e, show(P, X) + " ; " + show(P, Y) + " ; " + show(F, m2));
+        P.assign(Y, A); P.pdivmod(X, Y, m2, Y, B); emit(kind, "pdivmod:rroaa", "sa", cs, e, show(P, X) + " ; " + show(P, Y) + " ; " + show(F, m2));
+        P.assign(Y, B); P.pdivmod(X, Y, m2, A, Y); emit(kind, "pdivmod:rroaa", "sb", cs, e, show(P, X) + " ; " + show(P, Y) + " ; " + show(F, m2));
         P.pmod(R, m, A, B); e = show(P, R) + " ; " + show(F, m);
-        P.assign(Y, A); P.pmod(Y, m2, Y, B); emit(kind, "pmod", "ra", cs, e, show(P, Y) + " ; " + show(F, m2));
-        P.assign(Y, B); P.pmod(Y, m2, A, Y); emit(kind, "pmod", "rb", cs, e, show(P, Y) + " ; " + show(F, m2));
-        // gcd with cofactors: gcd(G, S, T, A, B)
+        P.assign(Y, A); P.pmod(Y, m2, Y, B); emit(kind, "pmod:roaa", "ra", cs, e, show(P, Y) + " ; " + show(F, m2));
+        P.assign(Y, B); P.pmod(Y, m2, A, Y); emit(kind, "pmod:roaa", "rb", cs, e, show(P, Y) + " ; " + show(F, m2));
+        // gcd with cofactors: gcd(G, S, T, A, B): destinations r = G, s = S, t = T
         P.gcd(R, S, T, A, B); e = show(P, R) + " ; " + show(P, S) + " ; " + show(P, T);
-#define PGCD(PAT, SETUP, CALL, G_, S_, T_)                                                                             \
-        SETUP; CALL; emit(kind, "gcdext", PAT, cs, e, show(P, G_) + " ; " + show(P, S_) + " ; " + show(P, T_));
-        PGCD("ga", P.assign(X, A), P.gcd(X, S2, T2, X, B), X, S2, T2)
-        PGCD("gb", P.assign(X, B), P.gcd(X, S2, T2, A, X), X, S2, T2)
-        PGCD("sa", P.assign(X, A), P.gcd(Z, X, T2, X, B), Z, X, T2)
-        PGCD("sb", P.assign(X, B), P.gcd(Z, X, T2, A, X), Z, X, T2)
-        PGCD("ta", P.assign(X, A), P.gcd(Z, S2, X, X, B), Z, S2, X)
-        PGCD("tb", P.assign(X, B), P.gcd(Z, S2, X, A, X), Z, S2, X)
+#define PGCD(PAT, CS, SETUP, CALL, G_, S_, T_)                                                                         \
+        SETUP; CALL; emit(kind, "gcd:rrraa", PAT, CS, e, show(P, G_) + " ; " + show(P, S_) + " ; " + show(P, T_));
+        PGCD("ra", cs, P.assign(X, A), P.gcd(X, S2, T2, X, B), X, S2, T2)
+        PGCD("rb", cs, P.assign(X, B), P.gcd(X, S2, T2, A, X), X, S2, T2)
+        PGCD("sa", cs, P.assign(X, A), P.gcd(Z, X, T2, X, B), Z, X, T2)
+        PGCD("sb", cs, P.assign(X, B), P.gcd(Z, X, T2, A, X), Z, X, T2)
+        PGCD("ta", cs, P.assign(X, A), P.gcd(Z, S2, X, X, B), Z, S2, X)
+        PGCD("tb", cs, P.assign(X, B), P.gcd(Z, S2, X, A, X), Z, S2, X)
         // the same with a constant operand (early exits of gcd)
         P.gcd(R, S, T, A, C.size() == 1 ? C : P.one); e = show(P, R) + " ; " + show(P, S) + " ; " + show(P, T);
         { Pol K; P.assign(K, C.size() == 1 ? C : P.one);
-          PGCD("gb0", P.assign(X, K), P.gcd(X, S2, T2, A, X), X, S2, T2)
-          PGCD("sa0", P.assign(X, A), P.gcd(Z, X, T2, X, K), Z, X, T2)
-          PGCD("tb0", P.assign(X, K), P.gcd(Z, S2, X, A, X), Z, S2, X)
+          PGCD("rb", cs + 100000, P.assign(X, K), P.gcd(X, S2, T2, A, X), X, S2, T2)
+          PGCD("sa", cs + 100000, P.assign(X, A), P.gcd(Z, X, T2, X, K), Z, X, T2)
+          PGCD("tb", cs + 100000, P.assign(X, K), P.gcd(Z, S2, X, A, X), Z, S2, X)
           P.gcd(R, S, T, K, A); e = show(P, R) + " ; " + show(P, S) + " ; " + show(P, T);
-          PGCD("ga0", P.assign(X, K), P.gcd(X, S2, T2, X, A), X, S2, T2)
-          PGCD("sa0'", P.assign(X, K), P.gcd(Z, X, T2, X, A), Z, X, T2)
-          PGCD("ta0", P.assign(X, K), P.gcd(Z, S2, X, X, A), Z, S2, X)
-          PGCD("tb0'", P.assign(X, A), P.gcd(Z, S2, X, K, X), Z, S2, X) }
+          PGCD("ra", cs + 200000, P.assign(X, K), P.gcd(X, S2, T2, X, A), X, S2, T2)
+          PGCD("sa", cs + 200000, P.assign(X, K), P.gcd(Z, X, T2, X, A), Z, X, T2)
+          PGCD("ta", cs + 200000, P.assign(X, K), P.gcd(Z, S2, X, X, A), Z, S2, X)
+          PGCD("tb", cs + 200000, P.assign(X, A), P.gcd(Z, S2, X, K, X), Z, S2, X) }
         // modular forms (B of positive degree)
         if (dB > 0) {
             P.invmod(R, A, B); e = show(P, R);
-            P.assign(X, A); P.invmod(X, X, B); emit(kind, "invmod", "ra", cs, e, show(P, X));
-            P.assign(X, B); P.invmod(X, A, X); emit(kind, "invmod", "rb", cs, e, show(P, X));
+            P.assign(X, A); P.invmod(X, X, B); emit(kind, "invmod:raa", "ra", cs, e, show(P, X));
+            P.assign(X, B); P.invmod(X, A, X); emit(kind, "invmod:raa", "rb", cs, e, show(P, X));
             P.invmodunit(R, A, B); e = show(P, R);
-            P.assign(X, A); P.invmodunit(X, X, B); emit(kind, "invmodunit", "ra", cs, e, show(P, X));
-            P.assign(X, B); P.invmodunit(X, A, X); emit(kind, "invmodunit", "rb", cs, e, show(P, X));
+            P.assign(X, A); P.invmodunit(X, X, B); emit(kind, "invmodunit:raa", "ra", cs, e, show(P, X));
+            P.assign(X, B); P.invmodunit(X, A, X); emit(kind, "invmodunit:raa", "rb", cs, e, show(P, X));
             const Integer n(uint64_t(1 + rng.below(40)));
             P.powmod(R, A, n, B); e = show(P, R);
-            P.assign(X, A); P.powmod(X, X, n, B); emit(kind, "powmod", "ra", cs, e, show(P, X));
-            P.assign(X, B); P.powmod(X, A, n, X); emit(kind, "powmod", "ru", cs, e, show(P, X));
+            P.assign(X, A); P.powmod(X, X, n, B); emit(kind, "powmod:rasa", "ra", cs, e, show(P, X));
+            P.assign(X, B); P.powmod(X, A, n, X); emit(kind, "powmod:rasa", "rb", cs, e, show(P, X));
         }
         { const uint64_t n = rng.below(6);
           P.pow(R, A, n); e = show(P, R);
-          P.assign(X, A); P.pow(X, X, n); emit(kind, "pow", "ra", cs, e, show(P, X)); }
+          P.assign(X, A); P.pow(X, X, n); emit(kind, "pow:ras", "ra", cs, e, show(P, X)); }
     }
 }
 
@@ -269,100 +341,293 @@ static void alias_rational(const std::string& kind, const std::vector<Integer>& 
         if (vals[i + 1] == 0) continue;
         const Rational A(vals[i], vals[i + 1]);
         Rational X, R;
-        R = A + A; X = A; X += X; emit(kind, "op+=", "rr", cs, sh(R), sh(X));
-        R = A - A; X = A; X -= X; emit(kind, "op-=", "rr", cs, sh(R), sh(X));
-        R = A * A; X = A; X *= X; emit(kind, "op*=", "rr", cs, sh(R), sh(X));
-        if (!isZero(A)) { R = A / A; X = A; X /= X; emit(kind, "op/=", "rr", cs, sh(R), sh(X)); }
-        X = A; X = X + X; emit(kind, "x=x+x", "rab", cs, sh(A + A), sh(X));
-        X = A; X = X * X; emit(kind, "x=x*x", "rab", cs, sh(A * A), sh(X));
-        X = A; X = X - X; emit(kind, "x=x-x", "rab", cs, sh(A - A), sh(X));
-        if (!isZero(A)) { X = A; X = X / X; emit(kind, "x=x/x", "rab", cs, sh(A / A), sh(X)); }
+        R = A + A; X = A; X += X; emit(kind, "operator+=:ra", "ra", cs, sh(R), sh(X));
+        R = A - A; X = A; X -= X; emit(kind, "operator-=:ra", "ra", cs, sh(R), sh(X));
+        R = A * A; X = A; X *= X; emit(kind, "operator*=:ra", "ra", cs, sh(R), sh(X));
+        if (!isZero(A)) { R = A / A; X = A; X /= X; emit(kind, "operator/=:ra", "ra", cs, sh(R), sh(X)); }
+        // binary operators: both operands one object (the result is a fresh object, then assigned over the operand)
+        X = A; X = X + X; emit(kind, "operator+:aar", "ab", cs, sh(A + A), sh(X));
+        X = A; X = X * X; emit(kind, "operator*:aar", "ab", cs, sh(A * A), sh(X));
+        X = A; X = X - X; emit(kind, "operator-:aar", "ab", cs, sh(A - A), sh(X));
+        if (!isZero(A)) { X = A; X = X / X; emit(kind, "operator/:aar", "ab", cs, sh(A / A), sh(X)); }
+    }
+}
+
+// ---- RecInt: ruint<K> -----------------------------------------------------------------------------------------------------------
+template <size_t K> static void fill(RecInt::ruint<K>& x, vp::Rng& rng, int style) {
+    uint64_t* w = reinterpret_cast<uint64_t*>(&x);
+    const size_t n = sizeof(x) / 8;
+    for (size_t i = 0; i < n; ++i) {
+        switch (style) {
+        case 0: w[i] = rng.next(); break;
+        case 1: w[i] = ~uint64_t(0); break;
+        case 2: w[i] = (i == 0) ? rng.next() >> rng.below(63) : 0; break;          // one limb
+        case 3: w[i] = (i + 1 == n) ? (uint64_t(1) << 63) | rng.next() : rng.next(); break;   // top bit set
+        case 4: w[i] = (i < (n + 1) / 2) ? rng.next() : 0; break;                  // half length
+        default: w[i] = (rng.below(3) == 0) ? 0 : (rng.below(2) ? ~uint64_t(0) : rng.next()); break;
+        }
+    }
+}
+template <size_t K> static std::string showu(const RecInt::ruint<K>& x) {
+    const uint64_t* w = reinterpret_cast<const uint64_t*>(&x);
+    std::string s;
+    char buf[20];
+    for (size_t i = sizeof(x) / 8; i-- > 0;) { snprintf(buf, sizeof buf, "%016llx", (unsigned long long)w[i]); s += buf; }
+    return s;
+}
+
+template <size_t K>
+static void alias_ruint(const std::string& kind, vp::Rng& rng, int ncases) {
+    typedef RecInt::ruint<K> U;
+    using namespace RecInt;
+    for (int cs = 0; cs < ncases; ++cs) {
+        U A, B, C, N, R, S, X, Y;
+        fill(A, rng, cs % 6); fill(B, rng, (cs / 2) % 6); fill(C, rng, (cs / 3) % 5); fill(N, rng, cs % 2 ? 0 : 3);
+        reinterpret_cast<uint64_t*>(&N)[0] |= 1;                                    // odd modulus
+        if (B == 0) B = 3;
+        std::string e;
+#define UBIN(OP)                                                                                                       \
+        OP(R, A, B); e = showu(R);                                                                                      \
+        X = A; OP(X, X, B); emit(kind, #OP ":raa", "ra", cs, e, showu(X));                                              \
+        X = B; OP(X, A, X); emit(kind, #OP ":raa", "rb", cs, e, showu(X));                                              \
+        OP(R, A, A); e = showu(R);                                                                                      \
+        X = A; OP(X, X, X); emit(kind, #OP ":raa", "rab", cs, e, showu(X));                                             \
+        X = A; OP(Y, X, X); emit(kind, #OP ":raa", "ab", cs, e, showu(Y));
+        UBIN(add) UBIN(sub) UBIN(mul) UBIN(gcd)
+        if (A != 0) { UBIN(div_q) UBIN(div_r) }
+        // a += b*c   (the destination is an operand too: the reference call works on copies)
+        { U T2, T3;
+          R = C; T2 = C; addmul(R, T2, B); e = showu(R);
+          X = C; addmul(X, X, B); emit(kind, "addmul:raa", "ra", cs, e, showu(X));
+          R = C; T2 = C; addmul(R, A, T2); e = showu(R);
+          X = C; addmul(X, A, X); emit(kind, "addmul:raa", "rb", cs, e, showu(X));
+          R = C; T2 = C; T3 = C; addmul(R, T2, T3); e = showu(R);
+          X = C; addmul(X, X, X); emit(kind, "addmul:raa", "rab", cs, e, showu(X));
+          R = C; T2 = A; T3 = A; addmul(R, T2, T3); e = showu(R);
+          X = C; Y = A; addmul(X, Y, Y); emit(kind, "addmul:raa", "ab", cs, e, showu(X)); }
+        // two-address forms with themselves
+#define UINPL(OP)                                                                                                      \
+        R = A; { U T2 = A; OP(R, T2); } e = showu(R);                                                                   \
+        X = A; OP(X, X); emit(kind, #OP ":ra", "ra", cs, e, showu(X));
+        UINPL(add) UINPL(sub) UINPL(mul)
+        square(R, A); e = showu(R); X = A; square(X, X); emit(kind, "square:ra", "ra", cs, e, showu(X));
+        copy(R, A); e = showu(R); X = A; copy(X, X); emit(kind, "copy:ra", "ra", cs, e, showu(X));
+        neg(R, A); e = showu(R); X = A; neg(X, X); emit(kind, "neg:ra", "ra", cs, e, showu(X));
+        if (A != 0) { R = A; { U T2 = A; mod_n(R, T2); } e = showu(R); X = A; mod_n(X, X); emit(kind, "mod_n:ra", "ra", cs, e, showu(X)); }
+        // with incoming carry / borrow
+        for (int cy = 0; cy < 2; ++cy) { const bool c1 = cy != 0; const int cc = cs + 100000 * cy;
+          add_wc(R, A, B, c1); e = showu(R);
+          X = A; add_wc(X, X, B, c1); emit(kind, "add_wc:raas", "ra", cc, e, showu(X));
+          X = B; add_wc(X, A, X, c1); emit(kind, "add_wc:raas", "rb", cc, e, showu(X));
+          add_wc(R, A, A, c1); e = showu(R); X = A; add_wc(X, X, X, c1); emit(kind, "add_wc:raas", "rab", cc, e, showu(X));
+          sub_wc(R, A, B, c1); e = showu(R);
+          X = A; sub_wc(X, X, B, c1); emit(kind, "sub_wc:raas", "ra", cc, e, showu(X));
+          X = B; sub_wc(X, A, X, c1); emit(kind, "sub_wc:raas", "rb", cc, e, showu(X));
+          sub_wc(R, A, A, c1); e = showu(R); X = A; sub_wc(X, X, X, c1); emit(kind, "sub_wc:raas", "rab", cc, e, showu(X));
+          R = A; { U T2 = A; add_wc(R, T2, c1); } e = showu(R); X = A; add_wc(X, X, c1); emit(kind, "add_wc:ras", "ra", cc, e, showu(X));
+          R = A; { U T2 = A; sub_wc(R, T2, c1); } e = showu(R); X = A; sub_wc(X, X, c1); emit(kind, "sub_wc:ras", "ra", cc, e, showu(X)); }
+        // div(q, r, a, b): destinations r = q, s = r
+        div(R, S, A, B); e = showu(R) + " ; " + showu(S);
+        X = A; div(X, Y, X, B); emit(kind, "div:rraa", "ra", cs, e, showu(X) + " ; " + showu(Y));
+        X = B; div(X, Y, A, X); emit(kind, "div:rraa", "rb", cs, e, showu(X) + " ; " + showu(Y));
+        Y = A; div(X, Y, Y, B); emit(kind, "div:rraa", "sa", cs, e, showu(X) + " ; " + showu(Y));
+        Y = B; div(X, Y, A, Y); emit(kind, "div:rraa", "sb", cs, e, showu(X) + " ; " + showu(Y));
+        X = A; Y = B; div(X, Y, X, Y); emit(kind, "div:rraa", "ra_sb", cs, e, showu(X) + " ; " + showu(Y));
+        X = B; Y = A; div(X, Y, Y, X); emit(kind, "div:rraa", "rb_sa", cs, e, showu(X) + " ; " + showu(Y));
+        if (A != 0) {
+            div(R, S, A, A); e = showu(R) + " ; " + showu(S);
+            X = A; div(Y, S, X, X); emit(kind, "div:rraa", "ab", cs, e, showu(Y) + " ; " + showu(S));
+            X = A; div(X, Y, X, X); emit(kind, "div:rraa", "rab", cs, e, showu(X) + " ; " + showu(Y));
+            Y = A; div(X, Y, Y, Y); emit(kind, "div:rraa", "sab", cs, e, showu(X) + " ; " + showu(Y));
+        }
+        // shifts
+        { const unsigned sh = unsigned(rng.below(sizeof(U) * 8 + 3));
+          left_shift(R, A, sh); e = showu(R); X = A; left_shift(X, X, sh); emit(kind, "left_shift:ras", "ra", cs, e, showu(X));
+          right_shift(R, A, sh); e = showu(R); X = A; right_shift(X, X, sh); emit(kind, "right_shift:ras", "ra", cs, e, showu(X)); }
+        // modular: mod_n(a, b, n) = b mod n ; inv_mod(a, b, n) ; exp_mod(a, b, c, n)
+        mod_n(R, A, N); e = showu(R);
+        X = A; mod_n(X, X, N); emit(kind, "mod_n:raa", "ra", cs, e, showu(X));
+        X = N; mod_n(X, A, X); emit(kind, "mod_n:raa", "rb", cs, e, showu(X));
+        if (A != 0) { mod_n(R, A, A); e = showu(R); X = A; mod_n(X, X, X); emit(kind, "mod_n:raa", "rab", cs, e, showu(X)); }
+        { U An; mod_n(An, A, N);
+          inv_mod(R, An, N); e = showu(R);
+          X = An; inv_mod(X, X, N); emit(kind, "inv_mod:raa", "ra", cs, e, showu(X));
+          X = N; inv_mod(X, An, X); emit(kind, "inv_mod:raa", "rb", cs, e, showu(X));
+          U Cs = C; if (cs % 4) { Cs = 0; reinterpret_cast<uint64_t*>(&Cs)[0] = rng.next() >> rng.below(60); }   // mostly short exponents
+          exp_mod(R, An, Cs, N); e = showu(R);
+          X = An; exp_mod(X, X, Cs, N); emit(kind, "exp_mod:raaa", "ra", cs, e, showu(X));
+          X = Cs; exp_mod(X, An, X, N); emit(kind, "exp_mod:raaa", "rb", cs, e, showu(X));
+          X = N; exp_mod(X, An, Cs, X); emit(kind, "exp_mod:raaa", "rc", cs, e, showu(X));
+          if (cs % 4) { exp_mod(R, Cs, Cs, N); e = showu(R);
+                        X = Cs; exp_mod(X, X, X, N); emit(kind, "exp_mod:raaa", "rab", cs, e, showu(X)); }
+          const uint64_t e64 = rng.next() >> rng.below(62);
+          exp_mod(R, An, e64, N); e = showu(R);
+          X = An; exp_mod(X, X, e64, N); emit(kind, "exp_mod:rasa", "ra", cs, e, showu(X));
+          X = N; exp_mod(X, An, e64, X); emit(kind, "exp_mod:rasa", "rb", cs, e, showu(X)); }
+    }
+}
+
+// ---- RecInt: rmint<K, MG> ---------------------------------------------------------------------------------------------------------
+template <size_t K, size_t MG>
+static void alias_rmint(const std::string& kind, vp::Rng& rng, int ncases) {
+    typedef RecInt::rmint<K, MG> M;
+    typedef RecInt::ruint<K> U;
+    using namespace RecInt;
+    U p; fill(p, rng, 3); reinterpret_cast<uint64_t*>(&p)[0] |= 1;
+    M::init_module(p);
+    for (int cs = 0; cs < ncases; ++cs) {
+        U a, b, c, ex;
+        fill(a, rng, cs % 6); fill(b, rng, (cs / 2) % 6); fill(c, rng, 0);
+        ex = 0; reinterpret_cast<uint64_t*>(&ex)[0] = rng.next() >> rng.below(60);
+        if (cs % 5 == 4) fill(ex, rng, 0);
+        M A(a), B(b), C(c), R, X, Y;
+        std::string e;
+#define MBIN(OP)                                                                                                       \
+        OP(R, A, B); e = showu(R.Value);                                                                                \
+        X = A; OP(X, X, B); emit(kind, #OP ":raa", "ra", cs, e, showu(X.Value));                                        \
+        X = B; OP(X, A, X); emit(kind, #OP ":raa", "rb", cs, e, showu(X.Value));                                        \
+        OP(R, A, A); e = showu(R.Value);                                                                                \
+        X = A; OP(X, X, X); emit(kind, #OP ":raa", "rab", cs, e, showu(X.Value));                                       \
+        X = A; OP(Y, X, X); emit(kind, #OP ":raa", "ab", cs, e, showu(Y.Value));
+        MBIN(add) MBIN(sub) MBIN(mul)
+#define MINPL(OP)                                                                                                      \
+        R = A; { M T2 = A; OP(R, T2); } e = showu(R.Value);                                                             \
+        X = A; OP(X, X); emit(kind, #OP ":ra", "ra", cs, e, showu(X.Value));
+        MINPL(add) MINPL(sub) MINPL(mul)
+        neg(R, A); e = showu(R.Value); X = A; neg(X, X); emit(kind, "neg:ra", "ra", cs, e, showu(X.Value));
+        square(R, A); e = showu(R.Value); X = A; square(X, X); emit(kind, "square:ra", "ra", cs, e, showu(X.Value));
+        inv(R, A); e = showu(R.Value); X = A; inv(X, X); emit(kind, "inv:ra", "ra", cs, e, showu(X.Value));
+        exp(R, A, ex); e = showu(R.Value); X = A; exp(X, X, ex); emit(kind, "exp:ras", "ra", cs, e, showu(X.Value));
+        { const uint64_t e64 = rng.next() >> rng.below(62);
+          exp(R, A, e64); e = showu(R.Value); X = A; exp(X, X, e64); emit(kind, "exp:ras", "ra", cs + 100000, e, showu(X.Value)); }
+        copy(R, A); e = showu(R.Value); X = A; copy(X, X); emit(kind, "copy:ra", "ra", cs, e, showu(X.Value));
+        if (cs % 3 == 0) { MBIN(div) }
     }
 }
 
 int main(int argc, char** argv) {
     std::string tier = argc > 1 ? argv[1] : "quick";
     uint64_t seed = argc > 2 ? strtoull(argv[2], nullptr, 10) : 1;
-    std::string only = argc > 3 ? argv[3] : "";
+    g_only = argc > 3 ? argv[3] : "";
+    if (argc > 4 && std::string(argv[4]) == "replay") {
+        g_replay_on = true;
+        std::string line;
+        while (std::getline(std::cin, line)) {
+            if (line.compare(0, 3, "al ") != 0) continue;
+            size_t eq = line.find(" = ");
+            g_replay.insert(eq == std::string::npos ? line : line.substr(0, eq));
+        }
+    }
     vp::Rng rng(seed * 1000003 + 5);
     std::vector<Integer> vals = {Integer(7), Integer(5), Integer(1000003), Integer(2), Integer(3), Integer(1), Integer(100), Integer(-3),
                                  Integer(65520), Integer(13), Integer(1), Integer(1), Integer(1), Integer(0), Integer(9), Integer(4)};
-    const int nrand = tier == "thorough" ? 400 : 24;
+    const bool thorough = tier == "thorough";
+    const int nrand = thorough ? 400 : 24;
     for (int i = 0; i < nrand; ++i) vals.push_back(Integer(uint64_t(rng.next() >> (rng.below(60)))));
     setvbuf(stdout, nullptr, _IOLBF, 0);
-#define RING(NAME, ...) if (only.empty() || only == NAME) { __VA_ARGS__ F_; alias_ring(NAME, F_, vals); }
-#define RINGP(NAME, TYPE, ...) if (only.empty() || only == NAME) { TYPE F_(__VA_ARGS__); alias_ring(NAME, F_, vals); }
-    RINGP("Modular_int32", Modular<int32_t>, 65521)
-    RINGP("Modular_uint32", Modular<uint32_t>, 65521u)
-    RINGP("Modular_int64", Modular<int64_t>, int64_t(2147483647))
-    RINGP("Modular_uint64", Modular<uint64_t>, uint64_t(4294967291u))
-    RINGP("Modular_int16", Modular<int16_t>, int16_t(181))
-    RINGP("Modular_double", Modular<double>, 67108859.)
-    RINGP("Modular_float", Modular<float>, 4093.f)
-    RINGP("Modular_Integer", Modular<Integer>, Integer("1267650600228229401496703205653"))
-    RINGP("Modular_Log16", Modular<Log16>, 1009)
-    RINGP("Modular_ruint7", Modular<RecInt::ruint<7>>, RecInt::ruint<7>(4294967291u))
-    if (only.empty() || only == "Modular_ruint7_8") { Modular<RecInt::ruint<7>, RecInt::ruint<8>> F_(RecInt::ruint<7>(4294967291u)); alias_ring("Modular_ruint7_8", F_, vals); }
-    RINGP("ModularBalanced_int32", ModularBalanced<int32_t>, 65521)
-    RINGP("ModularBalanced_int64", ModularBalanced<int64_t>, int64_t(2147483647))
-    RINGP("ModularBalanced_double", ModularBalanced<double>, 67108859.)
-    RINGP("ModularBalanced_float", ModularBalanced<float>, 4093.f)
-    RINGP("ModularExtended_double", ModularExtended<double>, 1125899906842597.)
-    RINGP("Montgomery_int32", Montgomery<int32_t>, 40499)
-    RINGP("Montgomery_ruint7", Montgomery<RecInt::ruint<7>>, RecInt::ruint<7>(4294967291u))
-    if (only.empty() || only == "QField_Rational") { QField<Rational> F_; alias_ring("QField_Rational", F_, vals); }
-    if (only.empty() || only == "GFqDom_int32") { GFqDom<int32_t> F_(3u, 4u, std::vector<GFqDom<int32_t>::Residu_t>{2, 1, 0, 0, 1}); alias_ring("GFqDom_int32", F_, vals); }
-    if (only.empty() || only == "Extension_GFq") {
+#define RINGP(NAME, ...) if (want(#NAME)) { AK::NAME F_(__VA_ARGS__); alias_ring(#NAME, F_, vals); }
+#if PART(0)
+    RINGP(Modular_int32, 65521)
+    RINGP(Modular_uint32, 65521u)
+    RINGP(Modular_int64, int64_t(2147483647))
+    RINGP(Modular_uint64, uint64_t(4294967291u))
+    RINGP(Modular_int16, int16_t(181))
+    RINGP(Modular_int8, int8_t(13))
+    RINGP(Modular_uint8, uint8_t(13))
+    RINGP(Modular_uint16, uint16_t(251))
+#endif
+#if PART(1)
+    // (moduli within maxCardinality: 2^(N/2) for Compute_t = Storage_t, 2^(N-1) resp. 2^N-1 for a double-width Compute_t)
+    RINGP(Modular_uint32_32, 65521u)
+    RINGP(Modular_int8_16, int8_t(113))
+    RINGP(Modular_uint8_16, uint8_t(251))
+    RINGP(Modular_uint16_32, uint16_t(65521))
+    RINGP(Modular_uint32_64, 4294967291u)
+    RINGP(Modular_int32_64, int32_t(2147483647))
+    RINGP(Modular_uint64_128, uint64_t(18446744073709551557ull))
+    RINGP(Modular_int16_int64, int16_t(181))
+#endif
+#if PART(2)
+    RINGP(Modular_double, 67108859.)
+    RINGP(Modular_float, 4093.f)
+    RINGP(Modular_Integer, Integer("1267650600228229401496703205653"))
+    RINGP(Modular_Log16, 1009)
+    RINGP(ModularBalanced_int32, 65521)
+    RINGP(ModularBalanced_int64, int64_t(2147483647))
+    RINGP(ModularBalanced_double, 67108859.)
+    RINGP(ModularBalanced_float, 4093.f)
+    RINGP(ModularExtended_double, 1125899906842597.)
+    RINGP(Montgomery_int32, 40499)
+#endif
+#if PART(3)
+    RINGP(Modular_ruint6, RecInt::ruint<6>(65521u))
+    RINGP(Modular_ruint7, RecInt::ruint<7>(4294967291u))
+    RINGP(Modular_ruint6_7, RecInt::ruint<6>(4294967291u))
+    RINGP(Modular_ruint7_8, RecInt::ruint<7>(4294967291u))
+    RINGP(Modular_rint7, RecInt::rint<7>(2147483647))
+    RINGP(Montgomery_ruint6, RecInt::ruint<6>(4294967291u))
+    RINGP(Montgomery_ruint7, RecInt::ruint<7>(4294967291u))
+    RINGP(Montgomery_ruint8, RecInt::ruint<8>(4294967291u))
+#endif
+#if PART(4)
+    if (want("QField_Rational")) { AK::QField_Rational F_; alias_ring("QField_Rational", F_, vals); }
+    if (want("GFqDom_int32")) { AK::GFqDom_int32 F_(3u, 4u, std::vector<GFqDom<int32_t>::Residu_t>{2, 1, 0, 0, 1}); alias_ring("GFqDom_int32", F_, vals); }
+    if (want("GFqDom_int64")) { AK::GFqDom_int64 F_(5u, 3u); alias_ring("GFqDom_int64", F_, vals); }
+    if (want("Rational_ops")) alias_rational("Rational_ops", vals);
+#endif
+#if PART(12)
+    if (want("Extension_GFq")) {
         typedef GFqDom<int32_t> B; typedef Poly1Dom<B, Dense> P;
         B base(3, 1); P pd(base, Indeter("Y")); P::Element irr; B::Element e;
         const int c3[] = {2, 1, 0, 0, 1};
         pd.init(irr, Degree(4));
         for (int j = 0; j < 5; ++j) { base.init(e, Integer(c3[j])); irr[size_t(j)] = e; }
-        Extension<B> F_(pd, irr);
+        AK::Extension_GFq F_(pd, irr);
         alias_ring("Extension_GFq", F_, vals);
     }
-    const int npoly = tier == "thorough" ? 400 : 40;
-    if (only.empty() || only == "Poly1Dom_Modular_int32") { Modular<int32_t> F(101); Poly1Dom<Modular<int32_t>, Dense> P(F, Indeter("X")); alias_poly("Poly1Dom_Modular_int32", P, rng, npoly); }
-    if (only.empty() || only == "Poly1Dom_QField") { QField<Rational> F; Poly1Dom<QField<Rational>, Dense> P(F, Indeter("X")); alias_poly("Poly1Dom_QField", P, rng, npoly / 4); }
-    // second part (own generator: the lines above do not depend on it)
-    vp::Rng rng2(seed * 1000003 + 77);
-    if (only.empty() || only == "Poly1Dom_Modular_int32") { Modular<int32_t> F(101); Poly1Dom<Modular<int32_t>, Dense> P(F, Indeter("X")); alias_poly2("Poly1Dom_Modular_int32", P, rng2, npoly); }
-    if (only.empty() || only == "Poly1Dom_QField") { QField<Rational> F; Poly1Dom<QField<Rational>, Dense> P(F, Indeter("X")); alias_poly2("Poly1Dom_QField", P, rng2, npoly / 4); }
-    if (only.empty() || only == "Poly1Dom_Modular_ruint7") { Modular<RecInt::ruint<7>> F(RecInt::ruint<7>(4294967291u)); Poly1Dom<Modular<RecInt::ruint<7>>, Dense> P(F, Indeter("X")); alias_poly("Poly1Dom_Modular_ruint7", P, rng2, npoly / 4); alias_poly2("Poly1Dom_Modular_ruint7", P, rng2, npoly / 4); }
-    if (only.empty() || only == "Poly1Dom_Modular_Log16") { Modular<Log16> F(1009); Poly1Dom<Modular<Log16>, Dense> P(F, Indeter("X")); alias_poly("Poly1Dom_Modular_Log16", P, rng2, npoly / 4); alias_poly2("Poly1Dom_Modular_Log16", P, rng2, npoly / 4); }
-    // more rings
-    // (moduli within maxCardinality: 2^(N/2) for Compute_t = Storage_t, 2^(N-1) resp. 2^N-1 for a double-width Compute_t)
-    RINGP("Modular_int8", Modular<int8_t>, int8_t(13))
-    RINGP("Modular_uint8", Modular<uint8_t>, uint8_t(13))
-    RINGP("Modular_uint16", Modular<uint16_t>, uint16_t(251))
-    if (only.empty() || only == "Modular_uint32_32") { Modular<uint32_t, uint32_t> F_(65521u); alias_ring("Modular_uint32_32", F_, vals); }
-    if (only.empty() || only == "Modular_int8_16") { Modular<int8_t, int16_t> F_(int8_t(113)); alias_ring("Modular_int8_16", F_, vals); }
-    if (only.empty() || only == "Modular_uint8_16") { Modular<uint8_t, uint16_t> F_(uint8_t(251)); alias_ring("Modular_uint8_16", F_, vals); }
-    if (only.empty() || only == "Modular_uint16_32") { Modular<uint16_t, uint32_t> F_(uint16_t(65521)); alias_ring("Modular_uint16_32", F_, vals); }
-    if (only.empty() || only == "Modular_uint32_64") { Modular<uint32_t, uint64_t> F_(4294967291u); alias_ring("Modular_uint32_64", F_, vals); }
-    if (only.empty() || only == "Modular_int32_64") { Modular<int32_t, int64_t> F_(int32_t(2147483647)); alias_ring("Modular_int32_64", F_, vals); }
-    if (only.empty() || only == "Modular_uint64_128") { Modular<uint64_t, __uint128_t> F_(uint64_t(18446744073709551557ull)); alias_ring("Modular_uint64_128", F_, vals); }
-    RINGP("Modular_rint7", Modular<RecInt::rint<7>>, RecInt::rint<7>(2147483647))
-    RINGP("Modular_ruint6", Modular<RecInt::ruint<6>>, RecInt::ruint<6>(65521u))
-    if (only.empty() || only == "Modular_ruint6_7") { Modular<RecInt::ruint<6>, RecInt::ruint<7>> F_(RecInt::ruint<6>(4294967291u)); alias_ring("Modular_ruint6_7", F_, vals); }
-    RINGP("Montgomery_ruint6", Montgomery<RecInt::ruint<6>>, RecInt::ruint<6>(4294967291u))
-    RINGP("Montgomery_ruint8", Montgomery<RecInt::ruint<8>>, RecInt::ruint<8>(4294967291u))
-    if (only.empty() || only == "ZRing_Integer") { ZRing<Integer> F_; alias_ring("ZRing_Integer", F_, vals); }
-    if (only.empty() || only == "ZRing_double") { ZRing<double> F_; alias_ring("ZRing_double", F_, vals); }
-    if (only.empty() || only == "ZRing_int64") { ZRing<int64_t> F_; alias_ring("ZRing_int64", F_, std::vector<Integer>(vals.begin(), vals.begin() + 16)); }
-    // the primary template (modular-inttype.h): any pair of types no specialisation takes
-    if (only.empty() || only == "Modular_int16_int64") { Modular<int16_t, int64_t> F_(int16_t(181)); alias_ring("Modular_int16_int64", F_, vals); }
-    if (only.empty() || only == "GF2") { GF2 F_; alias_ring("GF2", F_, vals); }
-    if (only.empty() || only == "GFqDom_int64") { GFqDom<int64_t> F_(5u, 3u); alias_ring("GFqDom_int64", F_, vals); }
-    if (only.empty() || only == "Extension_Modular_double") {
+    if (want("Extension_Modular_double")) {
         typedef Modular<double> B; typedef Poly1Dom<B, Dense> P;
         B base(7.); P pd(base, Indeter("Y")); P::Element irr; B::Element e;
         const int c7[] = {1, 1, 0, 1};                  // Y^3 + Y + 1: no root modulo 7, hence irreducible
         pd.init(irr, Degree(3));
         for (int j = 0; j < 4; ++j) { base.init(e, Integer(c7[j])); irr[size_t(j)] = e; }
-        Extension<B> F_(pd, irr);
+        AK::Extension_Modular_double F_(pd, irr);
         alias_ring("Extension_Modular_double", F_, vals);
     }
-    if (only.empty() || only == "Rational_ops") alias_rational("Rational_ops", vals);
+#endif
+#if PART(13)
+    if (want("ZRing_Integer")) { AK::ZRing_Integer F_; alias_ring("ZRing_Integer", F_, vals); }
+    if (want("ZRing_double")) { AK::ZRing_double F_; alias_ring("ZRing_double", F_, vals); }
+    if (want("ZRing_int64")) { AK::ZRing_int64 F_; alias_ring("ZRing_int64", F_, std::vector<Integer>(vals.begin(), vals.begin() + 16)); }
+    if (want("GF2_bool")) { AK::GF2_bool F_; alias_ring("GF2_bool", F_, vals); }
+#endif
+    const int npoly = thorough ? 400 : 40;
+    vp::Rng rng2(seed * 1000003 + 77);
+#if PART(5)
+    if (want("Poly1Dom_Modular_int32")) { Modular<int32_t> F(101); AK::Poly1Dom_Modular_int32 P(F, Indeter("X")); alias_poly("Poly1Dom_Modular_int32", P, rng, npoly); alias_poly2("Poly1Dom_Modular_int32", P, rng2, npoly); }
+#endif
+#if PART(6)
+    if (want("Poly1Dom_QField")) { vp::Rng r1(seed * 1000003 + 6), r2(seed * 1000003 + 78); QField<Rational> F; AK::Poly1Dom_QField P(F, Indeter("X")); alias_poly("Poly1Dom_QField", P, r1, npoly / 4); alias_poly2("Poly1Dom_QField", P, r2, npoly / 4); }
+#endif
+#if PART(7)
+    if (want("Poly1Dom_Modular_ruint7")) { vp::Rng r1(seed * 1000003 + 7), r2(seed * 1000003 + 79); Modular<RecInt::ruint<7>> F(RecInt::ruint<7>(4294967291u)); AK::Poly1Dom_Modular_ruint7 P(F, Indeter("X")); alias_poly("Poly1Dom_Modular_ruint7", P, r1, npoly / 4); alias_poly2("Poly1Dom_Modular_ruint7", P, r2, npoly / 4); }
+    if (want("Poly1Dom_Modular_Log16")) { vp::Rng r1(seed * 1000003 + 8), r2(seed * 1000003 + 80); Modular<Log16> F(1009); AK::Poly1Dom_Modular_Log16 P(F, Indeter("X")); alias_poly("Poly1Dom_Modular_Log16", P, r1, npoly / 4); alias_poly2("Poly1Dom_Modular_Log16", P, r2, npoly / 4); }
+#endif
+    const int nrec = thorough ? 300 : 40;
+#define RU(K) if (want("ruint" #K)) { vp::Rng r(seed * 1000003 + 100 + K); alias_ruint<K>("ruint" #K, r, K >= 10 ? nrec / 2 : nrec); }
+#if PART(8)
+    RU(6) RU(7) RU(8) RU(9)
+#endif
+#if PART(9)
+    RU(10) RU(11)
+#endif
+#define RM(K) if (want("rmintA" #K)) { vp::Rng r(seed * 1000003 + 200 + K); alias_rmint<K, RecInt::MG_ACTIVE>("rmintA" #K, r, K >= 10 ? nrec / 4 : nrec / 2); } \
+              if (want("rmintI" #K)) { vp::Rng r(seed * 1000003 + 300 + K); alias_rmint<K, RecInt::MG_INACTIVE>("rmintI" #K, r, K >= 10 ? nrec / 4 : nrec / 2); }
+#if PART(10)
+    RM(6) RM(7) RM(8)
+#endif
+#if PART(11)
+    RM(9) RM(10) RM(11)
+#endif
     return 0;
 }
